@@ -293,6 +293,12 @@ pub fn key() -> impl Strategy<Value = String> {
         1 => Just("list_OK".to_string()),
         1 => Just("ACK".to_string()),
         1 => Just("binary".to_string()),
+        // proper prefixes of the protocol keywords: a streaming parser must not commit early
+        2 => prop_oneof![
+            Just("l"), Just("li"), Just("list"), Just("list_"), Just("list_O"), Just("b"), Just("bi"), Just("binar"), Just("O"), Just("A"), Just("AC"),
+            Just("OKK"), Just("ACKK"), Just("binaryy"), Just("list_OKK")
+        ]
+        .prop_map(str::to_string),
         2 => prop_oneof![Just("file"), Just("changed"), Just("Artist"), Just("Last-Modified"), Just("size"), Just("type")]
             .prop_map(str::to_string),
     ]
